@@ -1,13 +1,30 @@
 (** Case type and checker for the C20 correspondence run (evaluated with vm_compute, exact
     Gaussian rationals).  The checker is parametric in the expectation functional regenerated
     from the source. *)
-From Qib Require Export VQE.VqeModel Pauli.PauliCheck Base.Inst.
+From Qib Require Export VQE.VqeModel VQE.VqeHistModel Pauli.PauliCheck Base.Inst.
+
+(** events of a value history on ONE operator object and ONE state array: the harness re-reads
+    the operator's strings / the state after every in-place change *)
+Inductive hev :=
+| HOp (op : list (P3 * QI))
+| HPsi (psi : list QI)
+| HMeasure.
 
 Inductive vcase :=
 | CExpect (n : nat) (op : list (P3 * QI)) (psi : list QI) (res : QI)
     (* measure_expectation_statevector(PauliOperator, state) *)
-| CCluster (Lsites : nat) (kinds : list bool) (params : list QI) (m : list (list QI)).
+| CCluster (Lsites : nat) (kinds : list bool) (params : list QI) (m : list (list QI))
     (* Jordan-Wigner matrix of FieldOperatorTerm(kinds, params reshaped), as qUCC builds it *)
+| CHistExpect (n : nat) (evs : list hev) (res : list QI).
+    (* measure_expectation_statevector called repeatedly while the operator object and the state array are
+       changed in place; res = the values returned, in order *)
+
+Definition hev_call (e : hev) : call (msetter (K:=QI)) unit :=
+  match e with
+  | HOp op => HistGeneric.CSet (MSetOp (opmatrix (map (fun w => (mk (fst w), snd w)) op)))
+  | HPsi psi => HistGeneric.CSet (MSetPsi (vec_of_list psi))
+  | HMeasure => HistGeneric.CGet tt
+  end.
 
 Definition check (s : expect_src) (c : vcase) : bool :=
   match c with
@@ -15,6 +32,10 @@ Definition check (s : expect_src) (c : vcase) : bool :=
       qi_eqb (expect (K:=QI) s n (opmatrix (map (fun w => (mk (fst w), snd w)) op)) (vec_of_list psi)) res
   | CCluster Lsites kinds params m =>
       list_eqb (list_eqb qi_eqb) (dense Lsites (cluster_mx (K:=QI) Lsites kinds (theta_of_list Lsites params))) m
+  | CHistExpect n evs res =>
+      list_eqb qi_eqb
+        (handed mset (mview (K:=QI) s n) mgeff {| m_op := fun _ _ => s0; m_psi := fun _ => s0 |} (map hev_call evs))
+        res
   end.
 
 Definition bad_cases (s : expect_src) (cs : list (nat * vcase)) : list nat :=
